@@ -51,6 +51,9 @@ SPACINGS = {
     "even7": [0, 7, 14, 21, 28, 35],
 }
 INCS = [10, 40]  # step increments when the increment is part of the event
+# three increments: contains every way a cheap evenness heuristic is fooled within four frames, e.g. 0,10,15,30 (total span ==
+# (T-1) x first gap) and 0,10,15,25 (first gap == last gap) - both are UNEVEN series (more than one distinct difference)
+INCS3 = [10, 5, 15]
 
 
 def root_cases(sub, shapes, cplxs, Ns, Tmax, spacings, dts, sym=False, offset=30, alpha=None):
@@ -79,6 +82,8 @@ def gen_log(tier, seed):
     # the timestep increment is part of the appended event: every pattern of even / uneven spacing up to Tmax
     yield from root_cases("C14.log", "svt", (False, True), (1,), T + 1, ["event"], [0.002])
     yield from root_cases("C14.log", "t", (True,), (2,), T, ["uneven"], [0.002], sym=True)
+    # three increments per event: all 3^(T-1) gap patterns (every pattern that fools a span / first-vs-last-gap heuristic)
+    yield from root_cases("C14.log", "svt", (False, True), (1,), T, ["event3"], [0.002])
 
 
 def gen_lag0(tier, seed):
@@ -104,9 +109,10 @@ def run(case):
     L = letters(case["shape"], case["cplx"], case.get("sym", False))
     scale = case.get("scale", 1.0)
     L = [v * scale for v in L]
-    ev_steps = case["spacing"] == "event"
     moves = [list(m) for m in itertools.product(range(3), repeat=N)]
-    events = [m + [k] for m in moves for k in range(len(INCS))] if ev_steps else moves
+    incs = INCS3 if case["spacing"] == "event3" else INCS
+    ev_steps = case["spacing"] in ("event", "event3")
+    events = [m + [k] for m in moves for k in range(len(incs))] if ev_steps else moves
     sig0 = {"shape": case["shape"], "complex": bool(case["cplx"]), "spacing": case["spacing"]}
     queue = collections.deque([list(case["prefix"])])
     seen = set()
@@ -124,7 +130,7 @@ def run(case):
         if ev_steps:
             steps = [case["offset"]]
             for ev in hist[1:]:
-                steps.append(steps[-1] + INCS[ev[N]])
+                steps.append(steps[-1] + incs[ev[N]])
         else:
             steps = [case["offset"] + s for s in SPACINGS[case["spacing"]][:T]]
         key = hashlib.sha1(x.tobytes() + repr(steps).encode()).digest()
@@ -184,6 +190,65 @@ def run(case):
     return R
 
 
+SCALE_T = [63, 64, 65, 66, 127, 128, 129, 130, 255, 256, 257]
+
+
+def gen_scale(tier, seed):
+    """long series: every length around the powers of two where a blocked / chunked / small-dtype implementation changes regime"""
+    Ts = SCALE_T if tier == "thorough" else [64, 65, 129, 257]
+    for T in Ts:
+        for shape in "svt":
+            for cplx in (False, True):
+                for sp in ("even", "log", "late"):
+                    if tier == "quick" and sp == "late" and shape != "s":
+                        continue
+                    yield {"sub": "C14.scale", "T": T, "shape": shape, "cplx": cplx, "spacing": sp, "N": 2, "dt": 0.002}
+
+
+def run_scale(case):
+    from PyMatterSim.dynamic.time_corr import time_correlation
+
+    R = Result()
+    T, N = case["T"], case["N"]
+    L = letters(case["shape"], case["cplx"])
+    # deterministic aperiodic letter pattern (quadratic residues), different per particle
+    x = np.array([[L[(t * t + 3 * i * t + i) % 7 % 3] for i in range(N)] for t in range(T)])
+    if case["spacing"] == "even":
+        steps = [100 + 20 * t for t in range(T)]
+    elif case["spacing"] == "log":
+        steps = [100 + (t * (t + 1)) // 2 for t in range(T)]  # every gap different
+    else:
+        steps = [100 + 20 * t + (7 if t == T - 1 else 0) for t in range(T)]  # even except for the very last gap
+    snaps = mk_snaps([np.zeros((N, 2))] * T, np.eye(2) * 4.0, [1] * N, steps=steps)
+    x_in = x.copy()
+    res = time_correlation(snaps, x_in, dt=case["dt"])
+    t_ref, c_ref, c0, linear = RD.ref_time_corr(x, steps, case["dt"])
+    sig = {"shape": case["shape"], "complex": bool(case["cplx"]), "spacing": case["spacing"], "path": "linear" if linear else "single_origin",
+           "scale": True}
+    where = f"T={T} spacing={case['spacing']}"
+    obs = res.values.astype(float)
+    if obs.shape != (T, 2):
+        R.fail(f"table shape {obs.shape} ({where})", sig=dict(sig, clause="shape"))
+        return R
+    ok = np.allclose(obs[:, 1], c_ref, rtol=1e-9, atol=1e-11)
+    if not ok and case["shape"] == "t":
+        alt = RD.ref_time_corr(x, steps, case["dt"], y=np.swapaxes(x, -1, -2))[1]
+        ok = np.allclose(obs[:, 1], alt, rtol=1e-9, atol=1e-11)
+    if not ok:
+        k = int(np.argmax(~np.isclose(obs[:, 1], c_ref, rtol=1e-9, atol=1e-11)))
+        R.fail(f"time_corr at lag index {k} = {obs[k, 1]!r}, reference {c_ref[k]!r} ({where})", sig=dict(sig, clause="value"))
+    if not (obs[0, 1] == 1.0):
+        R.fail(f"lag-zero value {obs[0, 1]!r} is not exactly 1 ({where})", sig=dict(sig, clause="lag0"))
+    if not np.allclose(obs[:, 0], t_ref, rtol=1e-12, atol=0):
+        R.fail(f"time axis differs from (step - step0) dt ({where})", sig=dict(sig, clause="time_axis"))
+    if not np.array_equal(x_in, x):
+        R.fail("input series modified", sig=dict(sig, clause="input_modified"))
+    R.outcome(np.round(obs, 9))
+    R.elem = T
+    R.nontrivial = bool(np.abs(obs[1:, 1] - 1.0).max() > 1e-6)
+    return R
+
+
 def subs(tier, seed):
     q = tier == "quick"
     hist = "BFS over frame-append histories below each root (root = shape x real/complex x N x spacing x dt x first frame); an event " \
@@ -194,8 +259,8 @@ def subs(tier, seed):
                  + f", Tmax = {4 if q else 5}: all origins; non-trivial = some state with a lag value != 1",
             bounds={"Tmax": 4 if q else 5, "letters": 3}),
         Sub("C14.log", gen_log, run,
-            rule=hist + "unevenly spaced timesteps (0,1,10,100,..; even then uneven; increment {10,40} chosen per event so that every "
-                        "even/uneven pattern incl. the degenerate T = 1, 2 occurs): origin 0 only exactly when more than one distinct "
+            rule=hist + "unevenly spaced timesteps (0,1,10,100,..; even then uneven; increment {10,40} - and {10,5,15}, all gap patterns - chosen per "
+                        "event so that every even/uneven pattern incl. the degenerate T = 1, 2 and the patterns with span == (T-1) x first gap occurs): origin 0 only exactly when more than one distinct "
                         "difference exists",
             bounds={"Tmax": 4 if q else 5, "Tmax_event_steps": 5 if q else 6}),
         Sub("C14.lag0", gen_lag0, run,
@@ -204,4 +269,8 @@ def subs(tier, seed):
         Sub("C14.time_axis", gen_time_axis, run,
             rule=hist + "first timestep 0 / 30 / 77 / 123456, dt 0.002 / 0.005 / 1.0, increments per event: t = (step - step_0) dt "
                         "(also checked in every state of the other sub-checks)", bounds={"Tmax": 5}),
+        Sub("C14.scale", gen_scale, run_scale,
+            rule="long series: every length T in " + str(SCALE_T if not q else [64, 65, 129, 257]) + " (around the powers of two where a blocked / "
+                 "chunked implementation changes regime) x scalar/vector/tensor x real/complex x {even, every-gap-different, even-except-last-gap}; "
+                 "one fixed aperiodic letter pattern per length; every row compared with the loop reference", bounds={"T": SCALE_T if not q else [64, 65, 129, 257]}),
     ]
